@@ -1319,6 +1319,22 @@ impl GraphDatabase {
                     continue;
                 }
             };
+            //the label must be a reference field of the source entity
+            let is_reference = match self.data_model.get_entity(&name) {
+                Ok(entity) => entity.fields.values().any(|field| {
+                    field.short_name.eq(&edge.label)
+                        && matches!(
+                            field.field_type,
+                            super::query_language::FieldType::Entity(_)
+                                | super::query_language::FieldType::Array(_)
+                        )
+                }),
+                Err(_) => false,
+            };
+            if !is_reference {
+                invalid_edges.push(edge.src);
+                continue;
+            }
             valid_edges.push((edge, name));
         }
 
